@@ -7,7 +7,9 @@ fresh stream: CDS with the forced EDS push, delta named types, on-demand WDS wit
 (ztunnel Authorization type over the C03 model of WorkloadRBACGenerator),
 RegTheorems.lean (registration vs. the two halves of Push: witnesses of the missed-snapshot window for the
 unrepaired initConnection and for the reverse order inside Push, registration_no_miss for every interleaving
-of the code as it is; start-up: never_served_cold with witnesses for a missing readiness gate / InitContext)
+of the code as it is; start-up: never_served_cold over loads / push start / push completion / readiness mark /
+connects, with witnesses for a missing readiness gate, a missing InitContext and a committed counter that moves
+before the push returned; ProxyUpdate over two connections of one proxy, witness for the first-match code)
 + the C03/C04 theorems it builds on.
 Tie: T-diff streams `reconn` (histories with stream cuts and reconnects through the real processDeltaRequest /
 pushConnectionDelta / processRequest / pushConnection; the first delta request of a stream presents the
@@ -60,6 +62,49 @@ def c04_streams(ctx, streams):
         ctx.drv_path, ctx.bin_path = keep
 
 
+def tdiff_counters(ctx):
+    """What the generated T-diff inputs of this run contained (evidence counters): flags of the re-sent subscriptions,
+    first vs later requests, types, case flags, cuts; wds first requests by shape."""
+    g = os.path.join(ctx.work, "reconn.gen.ops")
+    if os.path.exists(g):
+        fresh = {}
+        for l in ctx.read_lines(g):
+            f = l.split()
+            if not f:
+                continue
+            if f[0] == "case":
+                fresh = {}
+                for fl in (f[3] if len(f) > 3 else ""):
+                    ctx.count("reconn.case-flag.%s" % {"d": "delta-aware-cds", "z": "nil-when-nothing-found"}.get(fl, fl))
+            elif f[0] in ("reconnect", "pushcut"):
+                fresh = {}
+                ctx.count("reconn.%s" % f[0])
+            elif f[0] == "sub":
+                first = not fresh.get(f[1])
+                fresh[f[1]] = True
+                ctx.count("reconn.sub.%s.%s" % ("first-on-stream" if first else "later", f[1]))
+                for fl in (f[3] if len(f) > 3 else ""):
+                    ctx.count("reconn.sub.flag.%s" % {"n": "retained-nonce", "e": "legacy-empty-wildcard", "x": "queued-nack"}.get(fl, fl))
+    g = os.path.join(ctx.work, "wds.gen.ops")
+    if os.path.exists(g):
+        fresh = True
+        for l in ctx.read_lines(g):
+            f = l.split()
+            if not f:
+                continue
+            if f[0] in ("case", "wreconnect"):
+                fresh = True
+                if f[0] == "wreconnect":
+                    ctx.count("wds.reconnect")
+            elif f[0] in ("wreq", "wlreq", "wareq") and len(f) >= 5:
+                if fresh:
+                    shape = "legacy-empty" if f[1] == "-" else ("ondemand" if f[2] != "-" else "star")
+                    ctx.count("wds.first.%s.%s" % (f[0], shape))
+                    ctx.count("wds.first.versions.%s" % {"held": "retained", "heldx": "wrong", "-": "none"}.get(f[3], f[3]))
+                    ctx.count("wds.first.nonce.%s" % f[4])
+                fresh = False
+
+
 def run(ctx):
     ctx.rule = ("reconn: random histories of world changes, (re)subscriptions, pushes and stream cuts with reconnects (retained resources, nonces and "
                 "subscriptions kept by the clients; fresh watch tables on the server) for 7 types; e2e: histories on a real FakeDiscoveryServer; "
@@ -73,10 +118,20 @@ def run(ctx):
         "per connection (newest request wins); tied by the initrace gates only (observation, not differential)",
         "Boot model (start-up): static cluster state, readiness is marked only when caches are complete and every update received so far is "
         "committed (bootstrap waitForCacheSync, read not executed); e2e emulates a starting instance by clearing the readiness flag and "
-        "swapping in a never-initialised push context on a fake server whose registries are synced",
+        "swapping in a never-initialised push context on a fake server whose registries are synced; the committed-updates accounting of "
+        "the debouncer is executed (real debounce loop with a blocking push function; push gates), bootstrap's waitForCacheSync is read",
+        "the handler-level theorems assume a non-nil generator result: with a nil result (a generator that has nothing to say: SDS without a served "
+        "secret, a type the proxy kind is not served) nothing is sent on the first request of a reconnected stream exactly as on a brand-new one, "
+        "the watch is created and what the proxy retained for that type is left alone (reconnect_nil_generator_silent; reconn case flag z)",
+        "e2e verdicts compare the reconnected client with a brand-new client of the SAME server (shared xDS cache) unless a second server is "
+        "used: state that is stale for both compares equal; the T-diff oracles compare with the world",
+        "not exercised: SDS served by istiod (gateway secrets), the Authorization type in the ztunnel e2e (wds T-diff only), knative warm-up refusal, "
+        "authorize failure, OnConnect error path of initializeProxy, a ProxyUpdate that arrives between initializeProxy and MarkInitialized, waypoint proxies",
     ]
-    ctx.trusted.append("pilot/pkg/xds/zz_verif_c03.go, zz_verif_c04.go, zz_verif_c05.go, zz_verif_e2e.go (verif-tagged accessors and gate points "
-                       "init:after-lastpushcontext, init:after-addcon, push:after-publish, push:after-enqueue; empty functions without the tag)")
+    ctx.trusted.append("pilot/pkg/xds/zz_verif_c01.go (push queue / push channel counters used for quiescence), zz_verif_c02.go (VerifC02ServerState: push "
+                       "semaphore and queue tables; VerifDebounce: the real debounce loop), zz_verif_c03.go, zz_verif_c04.go, zz_verif_c05.go (readiness flag), "
+                       "zz_verif_e2e.go (verif-tagged accessors; gate points init:after-lastpushcontext, init:after-addcon, push:after-publish, "
+                       "push:after-enqueue and the request gate `configupdate` at the entry of ConfigUpdate; empty functions without the tag)")
     ctx.lean_prove(THEOREMS)
     if not ctx.build_drv():
         return
@@ -85,6 +140,7 @@ def run(ctx):
     ctx.diff_stream("reconn", ctx.n(1500, 40000), oracle=c03check.oracle)
     # ztunnel reconnects with initial_resource_versions against the REAL workload generator
     ctx.diff_stream("wds", ctx.n(1000, 30000), oracle=c03check.oracle)
+    tdiff_counters(ctx)
     for stream in ("reconn", "wds"):
         g = os.path.join(ctx.work, "%s.gen.ops" % stream)
         if os.path.exists(g):
@@ -110,11 +166,15 @@ def run(ctx):
     # round 3: health probe first, reconnect into a non-quiescent server, a second fault during the resync, first request =
     # queued NACK, NDS / ECDS compared, stream dead before any response, push slots free after a cut, fresh watch table;
     # ztunnel flavour with initial cut / overlap / changes afterwards / retained nonce; 23 corpus cases (every first type
-    # x with/without the old nonce)
+    # x with/without the old nonce); round 4: labels of the proxies' pods change while old and new stream are both registered
+    # (fix 234a295), server-side Connection.Stop, old instance shut down with live streams, non-quiescent second instance,
+    # ingress-gateway (router) flavour
     e2e_common.run(ctx, "c05", ctx.n(24, 400))
     # initConnection parked inside the registration window, Push parked between / after its two halves while a whole
     # connection initialises, and a proxy meeting an instance that is still starting (not ready / context never initialised)
-    # (+ the gated client may be a RECONNECTING one that retained state; admission refusals: rate limit, ztunnel without ambient)
+    # (+ the gated client may be a RECONNECTING one that retained state, or a ztunnel; admission refusals: rate limit, ztunnel
+    # without ambient; readiness accounting: the real debounce loop with a blocking push function, CommittedUpdates behind
+    # InboundUpdates while Push is parked)
     e2e_common.run(ctx, "initrace", ctx.n(14, 120))
 
 
